@@ -133,7 +133,15 @@ func (a *Act) exec(instr ssa.Instruction, st *State, reach string, b *ssa.BasicB
 	case *ssa.Convert:
 		a.convert(in, st, reach)
 	case *ssa.ChangeType:
-		a.bind(in, a.val(in.X))
+		x := a.val(in.X)
+		a.bind(in, x)
+		// conversions between function types keep the identity of a known function / closure
+		if f := g.eng.funcByTerm[x]; f != nil {
+			g.eng.funcByTerm[a.env[in]] = f
+		}
+		if ci := g.closures[x]; ci != nil {
+			g.closures[a.env[in]] = ci
+		}
 	case *ssa.ChangeInterface:
 		a.bind(in, a.val(in.X))
 	case *ssa.MakeInterface:
